@@ -51,7 +51,7 @@ func main() {
 	runner.Main(runner.Config{
 		ID:    "C04",
 		Level: "model_checking",
-		Rule:  "bounded exhaustive enumeration. Builds: every ordered tuple of 1-3 files with sizes from {0,1,B-1,B,B+1,2B-1,2B,2B+1,3B} (B=64KiB, seeded pseudo-random content), the empty build, zero-filled files, a build with unusual names (paths differing only by case, prefixes of one another, spaces, dots, non-ASCII), and a slice with 40 one-byte files / symlinks (plain, dangling, not lexically clean, upwards, absolute destinations) / an empty directory. Sub-check context-reuse: one ValidatorContext first validates (wounds file / fail-fast / heal) a damaged copy, then the pristine build: the second verdict must be clean. Producers: stand-alone signing (ComputeSignature, and ComputeSignatureToWriter framed into a signature stream) and diff-time signing (WritePatch against an empty and against an identical old build). Compression of the stream: every registered setting on the extras slice, none/gzip-1/brotli-1 in rotation elsewhere. Sub-check 'slicing': for every size multiset and both diff-time producers, every read slicing of the source pool with at most 2 deviations (a deviation answers one Read call with 1 or 16383 bytes instead of the full 16KiB request, or reports io.EOF together with the last bytes of a file instead of on a further empty read), explored depth-first over a choice tape. Oracle: an independent re-computation (own weak checksum, crypto/md5, own block splitting over os.ReadFile) must equal ComputeSignature, pwr.ReadSignature of the stream and the harness' own decoding of the stream, hash for hash (position, weak, strong, short size); the container read back must equal the walked container; Validate with WoundsPath on the pristine build returns nil, writes no wound, HasWounds is false; AssertValid returns nil. Non-trivial = the build's reference signature contains a full block and a short or empty block (plain sub-checks) / the execution deviates inside a file of more than one block (slicing).",
+		Rule:  "bounded exhaustive enumeration. Builds: every ordered tuple of 1-3 files with sizes from {0,1,B-1,B,B+1,2B-1,2B,2B+1,3B} (B=64KiB, seeded pseudo-random content), the empty build, zero-filled files, a build with unusual names (paths differing only by case, prefixes of one another, spaces, dots - also two at the end of a directory name -, non-ASCII), a build with permission bits other than 0644/0755, and a slice with 40 one-byte files / symlinks (plain, dangling, not lexically clean, upwards, absolute destinations) / an empty directory. Sub-check context-reuse: one ValidatorContext first validates (wounds file / fail-fast / heal) a damaged copy, then the pristine build: the second verdict must be clean. Producers: stand-alone signing (ComputeSignature, and ComputeSignatureToWriter framed into a signature stream) and diff-time signing (WritePatch against an empty and against an identical old build). Compression of the stream: every registered setting on the extras slice, none/gzip-1/brotli-1 in rotation elsewhere. Sub-check 'slicing': for every size multiset and both diff-time producers, every read slicing of the source pool with at most 2 deviations (a deviation answers one Read call with 1 or 16383 bytes instead of the full 16KiB request, or reports io.EOF together with the last bytes of a file instead of on a further empty read), explored depth-first over a choice tape. Oracle: an independent re-computation (own weak checksum, crypto/md5, own block splitting over os.ReadFile) must equal ComputeSignature, pwr.ReadSignature of the stream and the harness' own decoding of the stream, hash for hash (position, weak, strong, short size); the container read back must equal the walked container; Validate with WoundsPath on the pristine build returns nil, writes no wound, HasWounds is false; AssertValid returns nil. Non-trivial = the build's reference signature contains a full block and a short or empty block (plain sub-checks) / the execution deviates inside a file of more than one block (slicing).",
 		Assumptions: []string{
 			"file contents are seeded pseudo-random (VERIF_SEED) or zeros; other byte values are not enumerated",
 			"stand-alone signature streams are framed by the check with wharf's own wire/CompressWire/ComputeSignatureToWriter (wharf has no single entry point for it; this is what its command-line front end does)",
@@ -125,6 +125,12 @@ func many() wh.Build {
 // extras is the slice run under every compression setting: each size alone and
 // a few pairs, combined with 40 one-byte files, a symlink and an empty
 // directory; plus builds without any regular file.
+func modeF(path, content string, mode uint32) wh.Entry {
+	e := wh.F(path, content)
+	e.Mode = mode
+	return e
+}
+
 func extras() []wh.Build {
 	var out []wh.Build
 	ld := wh.Build{wh.L("lnk", "a"), wh.D("emptydir")}
@@ -166,7 +172,11 @@ func extras() []wh.Build {
 		// sort next to each other
 		wh.Build{wh.F("include/xt_MARK.h", "A.=upper"), wh.F("include/xt_mark.h", "B/100"), wh.F("Include/xt_mark.h", "=third"),
 			wh.F("a", "=1"), wh.F("a.b", "=2"), wh.F("a b", "=3"), wh.F("ab", "C/65535"), wh.F("a-", "=5"), wh.F("-a", "=6"),
-			wh.F("d/x", "=7"), wh.F("d.x", "=8"), wh.F("d x", ""), wh.F("\u00e9t\u00e9/na\u00efve", "D"), wh.F(".hidden", "=9"), wh.F("d/.keep", "")},
+			wh.F("d/x", "=7"), wh.F("d.x", "=8"), wh.F("d x", ""), wh.F("\u00e9t\u00e9/na\u00efve", "D"), wh.F(".hidden", "=9"), wh.F("d/.keep", ""),
+			wh.F("saves../slot1", "=s1"), wh.F("..saves/x", "=s2"), wh.F("sa..ves", "=s3"), wh.F("trailing.", "=s4"), wh.F("x..", "=s5"), wh.F("...", "=s6")},
+		// permission bits other than 0644 / 0755 (a container records mode|0644)
+		wh.Build{modeF("ro", "A/100", 0o444), modeF("priv", "=p", 0o600), modeF("grp", "B", 0o640), modeF("exe-priv", "=#!", 0o700),
+			modeF("exe", "=#!x", 0o755), modeF("shared", "C/7", 0o664), modeF("d/ro-empty", "", 0o444)},
 	)
 	return out
 }
